@@ -429,7 +429,7 @@ def visible_inputs(c, max_photons):
 # rich construction alphabet (C08, C09, C19): legality decided by the real code,
 # a refused call is simply skipped (its own correctness is C01/C02/C08 business)
 # ---------------------------------------------------------------------------
-def rich_alphabet(n, env, subs=("bs2", "h3mid", "h3io", "h4desc", "lossy", "grp")):
+def rich_alphabet(n, env, subs=("bs2", "h3mid", "h3io", "h4desc", "lossy", "grp", "bar2")):
     o = []
     for nm in subs:
         for m in range(0, n - 1):
@@ -439,7 +439,7 @@ def rich_alphabet(n, env, subs=("bs2", "h3mid", "h3io", "h4desc", "lossy", "grp"
           ("bs", n - 1, 1, env.R2, "Rx", 0), ("bs", 1, n - 1, env.R2, "Rx", env.L2),
           ("ps", n - 1, env.PH[0], 0), ("ps", 0, env.PH[1], env.L2), ("loss", 1, env.L[1]),
           ("sw", ((0, n - 1), (n - 1, 0))), ("sw", ((0, 1), (1, 2), (2, 0))), ("sw", ((1, 2), (2, 1))),
-          ("uni", 2, 1, False), ("uni", 3, 0, True), ("bar", None), ("bar", (1,)), ("bar", ()),
+          ("uni", 2, 1, False), ("uni", 3, 0, True), ("bar", None), ("bar", (1,)), ("bar", ()), ("bar", (n - 1,)), ("bar", (0, n)),
           ("her", 1, 1, n - 1), ("her", 0, 0, 0), ("her", 2, n - 1, 1),
           ("bsP", 0, 2), ("psP", 1, True), ("psP", 0, False), ("lossP", n - 1), ("bslossP", 1, 0),
           ("addgP", 0), ("addgP", n - 2), ("lossP0", 1)]
@@ -453,12 +453,15 @@ def construct(n, prog, env):
     c = lw.Circuit(n)
     params = []
     applied = 0
+    subs = {}                 # one object per sub-circuit name: adding it again re-uses the same object
     for op in prog:
         op = tuple(op)
         k = op[0]
         try:
             if k == "add":
-                c.add(make_sub(op[1], env)[0], op[2], group=op[3])
+                if op[1] not in subs:
+                    subs[op[1]] = make_sub(op[1], env)[0]
+                c.add(subs[op[1]], op[2], group=op[3])
             elif k == "her":
                 c.herald(op[1], op[2], op[3])
             elif k == "bsP":
